@@ -14,6 +14,18 @@ CHECKS = {
    text="Totality oracle (no panic/abort via catch_unwind + supervisor, deterministic step budget from the verif hook, linear work bound 24*(tokens+1)+256, well-formed error ranges/messages) over C01's space plus unterminated constructs at every token boundary, 12 nesting shapes up to depth 250 and 10^4-fold token repetition.",
    note="step counter hook counts lexer tokens and opened nodes; 256 MiB worker stacks (the server's 2 MiB stacks are not asserted); nesting > 256 skipped as documented non-goal",
    technique="property-based testing / fuzzing with a deterministic step-budget hook"),
+ "C10": dict(cat="exploration", design="§5 C10",
+   text="Differential against an independent reference position mapper (RefPos, from the LSP spec) on every string of length <=6 (thorough <=7) over a 9-symbol alphabet chosen to hit every encoding class and every line-break confusion (exhaustive), x every char-boundary offset and every (line, column) up to one past the extremes, plus long random texts and real files in LF/CRLF form.",
+   note="RefPos is the trusted reference; offsets strictly inside a CRLF pair are exempt from the round-trip clause, columns inside a surrogate pair and lines past the end are unspecified and skipped",
+   technique="exhaustive small-scope enumeration + random texts against a reference model (differential)"),
+ "C14": dict(cat="exploration", design="§5 C14",
+   text="Differential against RefLexer (written from the TableGen Programmer's Reference) on 100k generated sequences per quick run of spec-level token instances sampled over each class's regular language with boundary cases, joined by every separator kind (including nested block comments and no separator where the reference split is unchanged), plus an exhaustive vocabulary table (every keyword, operator and punctuation mark lexes alone to a distinct non-Id kind).",
+   note="RefLexer is the trusted reference for boundaries; kinds are checked by class membership, not by name",
+   technique="property-based testing: generated token sequences, differential against a reference lexer"),
+ "C15": dict(cat="exploration", design="§5 C15",
+   text="Exhaustive enumeration of all directive/marker sequences up to length 6 (thorough 7) over two macro names, evaluated by a reference preprocessor (RefPP): for well-nested inputs the delivered non-trivia tokens must be exactly the selected markers with zero errors; unterminated conditionals and nameless directives must be reported. Random nestings to depth 6 with CRLF and trailing comments.",
+   note="RefPP is the trusted reference; inputs with stray #else/#endif are not asserted",
+   technique="exhaustive small-scope enumeration against a reference evaluator"),
 }
 
 REASON_WIP = "check not built yet in this session (work in progress; see DESIGN.md for the planned generator and oracle)"
